@@ -38,6 +38,9 @@ class C06(ProgProp):
         import json
         import zlib
         dg = zlib.crc32(json.dumps(case["spec"]["templates"], sort_keys=True).encode())
+        if dg % 10 == 1:
+            case["spec"].setdefault("faults", {})["callbacks"] = {"#%d" % (1 + (dg // 10) % 6): "base" if (dg // 60) % 2 else True}
+            case["spec"]["ctx_fault"] = True
         if dg % 10 == 0:
             # the runaway-recursion guard stops the computation: no context may be left active
             case["spec"]["max_stack"] = 2 + (dg // 10) % 5
